@@ -161,7 +161,7 @@ class Item:
     def __init__(self, key, fn, label, model, value, spec=None, meta=None, exact=True, alt=None):
         self.key, self.fn, self.label, self.model, self.value = key, fn, label, model, value
         self.spec, self.meta, self.exact = spec, meta or {}, exact
-        self.alt = alt      # model of the REPAIRED function, where the faithful model reproduces a known defect
+        self.alt = alt      # optional second admissible model (unused at present: every model is the code as it is now)
 
 
 class CaseCtx:
@@ -360,8 +360,7 @@ def run_pauli(ctx, orders, pos, norm_checks):
                 pl = qi.kraus_to_pauli(K, False, **kw)
                 ctxpl = f"(z_kraus_to_pauli {pn} {col} {nn} Ks)"
                 T("to_pauli_liouville", f"(z_to_pauli_liouville {pn} {col} {nn} Um)",
-                  lambda nz: qi.to_pauli_liouville(U.copy(), nz, **kw), spec_term("pauli", "OUT", order, n, po, E="EU"), 1,
-                  alt=f"(z_to_pauli_liouville_fixed {pn} {col} {nn} Um)")
+                  lambda nz: qi.to_pauli_liouville(U.copy(), nz, **kw), spec_term("pauli", "OUT", order, n, po, E="EU"), 1)
                 T("kraus_to_pauli", ctxpl, lambda nz: qi.kraus_to_pauli(K, nz, **kw),
                   spec_term("pauli", "OUT", order, n, po), 1)
                 T("choi_to_pauli", f"(z_choi_to_pauli {pn} {col} {nn} (z_kraus_to_choi {o} Ks))",
@@ -427,11 +426,11 @@ def run_networks(ctx):
             spec="zmeqb OUT EU")
     ctx.add("QuantumChannel.apply", "nonpure,inverse=True", f"(z_qn_apply {dd} (z_qn_from_operator_inv {dd} {C}) rho)",
             lambda: QuantumChannel.from_operator(choi.copy(), (d, d), inverse=True).apply(rho.copy()),
-            spec="zmeqb OUT EK", alt=f"(z_network_action {dd} (z_qn_from_operator_inv {dd} {C}) rho)")
+            spec="zmeqb OUT EK")
     ctx.add("QuantumChannel.apply", "nonpure,inverse=True,unitary",
             f"(z_qn_apply {dd} (z_qn_from_operator_inv {dd} (z_to_choi (Row d) Um)) rho)",
             lambda: QuantumChannel.from_operator(choiU.copy(), (d, d), inverse=True).apply(rho.copy()),
-            spec="zmeqb OUT EU", alt=f"(z_network_action {dd} (z_qn_from_operator_inv {dd} (z_to_choi (Row d) Um)) rho)")
+            spec="zmeqb OUT EU")
     # the same channel applied through the link product with a state network
     ctx.add("link_product", "state*channel,nonpure,inverse=True",
             f"(z_qn_matrix_of_state d (z_qn_link (z_qn_state d rho) (z_qn_from_operator_inv {dd} {C})))",
@@ -687,20 +686,17 @@ def main(run):
     run.checker_cmds.append("make -C coq theories/C17/Props.vo")
     check_plan(run, plan(run.tier, rng))
     run_unitaries_probe(run)
-    # a `_refuted` theorem is about the model of the code AS WRITTEN; it describes the current tree only while
-    # the corresponding defect still reproduces (after a repair the run matches the `alt` model instead)
-    REF = {"to_pauli_liouville_column": "to_pauli_liouville:order=column", "qchannel_apply_nonpure": "QuantumChannel.apply:nonpure"}
-    for thm, prefix in REF.items():
-        if any(f.key.startswith(prefix) for f in run.findings):
-            run.refuted.append(thm)
-        else:
-            run.notes.setdefault("refutations_not_reproduced", []).append(
-                f"{thm}_refuted is a theorem about the pre-repair model; the defect no longer reproduces on this tree")
+    run.notes["historical_lemmas"] = ("C17/Historical.v keeps labelled lemmas about the pre-repair formulas of to_pauli_liouville "
+                                    "and QuantumChannel.apply; they are not statements about the current tree")
     return run.finish(level="proof", rule=RULE)
 
 
 def replay(run, data):
     rp = data.get("replay", {})
+    if data.get("key", "").startswith("kraus_to_unitaries"):
+        run_unitaries_probe(run)
+        run.findings = [f for f in run.findings if f.key == data["key"]][:1]
+        return run.finish(rule="replay of the kraus_to_unitaries row/column probe")
     if "case" not in rp:
         return run.finish(rule="replay: nothing to re-execute")
     c = case_from_json(rp["case"])
